@@ -13,7 +13,7 @@ import re
 
 from .. import docs, names
 from ..common import rng, seed, tier
-from ..harness import Run, artefact_kind, main_wrapper
+from ..harness import Run, artefact_kind, dangling_mechanism, main_wrapper
 from .c12 import first_text_diff
 
 BAD_SCHEMAS = {
@@ -124,25 +124,60 @@ def insert_bad(doc: dict, r, position: str, bad_key: str, n: int):
 
 
 def owner_files(manifest: dict, dep: set, dep_ops: set) -> tuple[set, set]:
-    """Files of the *base* tree that belong to items in dep: modules of dep classes, of inline classes nested in them
-    (class-name prefix), and of dependent operations."""
-    files, prefixes, classes = set(), set(), set()
+    """Files of the *base* tree that belong to items in dep: modules of dep classes, of the inline classes reachable
+    from them through their properties (closure over the recorded manifest, stopping at referenced components), and of
+    dependent operations with their inline body / response classes."""
+    models, enums = manifest.get("models") or {}, manifest.get("enums") or {}
+    ref_classes = {e["cls"] for e in (manifest.get("refs") or {}).values() if e.get("cls")}
+    module_of = {c: m["module"] for c, m in list(models.items()) + list(enums.items())}
+
+    def classes_in(pi, out):
+        if pi.get("cls"):
+            out.add(pi["cls"])
+        for sub in ([pi["inner"]] if "inner" in pi else []) + (pi.get("inners") or []):
+            classes_in(sub, out)
+        return out
+
+    def closure(start: set) -> set:
+        seen, todo = set(), list(start)
+        while todo:
+            c = todo.pop()
+            if c in seen:
+                continue
+            seen.add(c)
+            m = models.get(c)
+            if not m:
+                continue
+            used = set()
+            for pi in m["props"] + ([m["additional"]] if m.get("additional") else []):
+                classes_in(pi, used)
+            todo += [u for u in used if u not in ref_classes and u not in seen]
+        return seen
+
+    start = set()
     for ref, ent in (manifest.get("refs") or {}).items():
-        if ref.rsplit("/", 1)[-1] in dep and ent.get("cls"):
-            prefixes.add(ent["cls"])
-    for cname, m in list((manifest.get("models") or {}).items()) + list((manifest.get("enums") or {}).items()):
-        if any(cname == p or cname.startswith(p) for p in prefixes):
-            files.add(f"models/{m['module']}.py")
-            classes.add(cname)
+        if ref.rsplit("/", 1)[-1] in dep:
+            if ent.get("cls"):
+                start.add(ent["cls"])
+            start |= {c for c in ent.get("classes") or [] if c not in ref_classes}
+    files, classes = set(), set()
     for e in manifest.get("endpoints") or []:
         sk = re.sub(r"\{[^}]*\}", "{}", e["path"])
         if any(m == e["method"] and re.sub(r"\{[^}]*\}", "{}", p) == sk for (m, p) in dep_ops):
             files.add(f"api/{e['tag']}/{e['module']}.py")
-            # inline classes named after the operation (bodies / responses)
-            for cname, mm in list((manifest.get("models") or {}).items()) + list((manifest.get("enums") or {}).items()):
-                if names.collide_key(cname).startswith(names.collide_key(e["name"])):
-                    files.add(f"models/{mm['module']}.py")
-                    classes.add(cname)
+            used = set()
+            for loc in e["params"].values():
+                for pi in loc:
+                    classes_in(pi, used)
+            for b in e["bodies"]:
+                classes_in(b["prop"], used)
+            for rr in e["responses"]:
+                classes_in(rr["prop"], used)
+            start |= {u for u in used if u not in ref_classes}
+    for c in closure(start):
+        classes.add(c)
+        if c in module_of:
+            files.add(f"models/{module_of[c]}.py")
     return files, classes
 
 
@@ -245,8 +280,7 @@ def main() -> int:
             removed = removed_by_cascade(res.get("diags") or [])
             for u in im.get("unresolved", []):
                 if "SyntaxError" not in u["what"]:
-                    m = re.search(r"No module named '[\w.]*\.models\.(\w+)'", u["what"])
-                    mech = ":removed_by_cascade" if (m and (names.collide_key(m.group(1)) in removed or (removed and re.search(r"type_?\d+", m.group(1), re.I)))) else f":{pos0}"
+                    mech = dangling_mechanism(u, vt, removed) or f":{pos0}"
                     vd.violation(f"remaining_tree_broken:dangling_name{mech}", f"{label}: {u['module']}:{u['line']}: {u['what']}", w)
         ev.seen(("C08", sig))
         if len(ev.samples) < 4 and res.get("diags"):
